@@ -1081,7 +1081,10 @@ func (e *AnimEncoder) increasePreviousDuration(durMS int) error {
 	e.prevMuxIndex = e.muxer.NumFrames() - 1
 	e.frameCount++
 	e.countSinceKeyframe++
-	// prevCanvas and prevFrameRect remain unchanged since the canvas is identical.
+	// The canvas is unchanged, but the previous frame in the muxer is now the
+	// 1x1 filler: a later dispose-to-background decision applies to its
+	// rectangle, not to the rectangle of the frame before it (C: prev_rect = rect).
+	e.prevFrameRect = image.Rect(0, 0, 1, 1)
 	return nil
 }
 
